@@ -1,8 +1,8 @@
 #!/bin/bash
-# confirm_seeded.sh <PID> <name>: confirm a red-team change in its scratch worktree
+# confirm_seeded.sh <PID> <name> [sub]: confirm a red-team change in its scratch worktree
 # /tmp/rt/rt-<PID> (patch applied there), store it under seeded/<PID>-<name>, remove the worktree.
 set -u
-PID=$1; NAME=$2; WT=/tmp/rt/rt-$PID; OUT=/tmp/rt/rt-$PID-out; DST=/verif/seeded/$PID-$NAME
+PID=$1; NAME=$2; SUB=${3:-}; WT=/tmp/rt/rt-$PID; OUT=/tmp/rt/rt-$PID-out${SUB:+/$SUB}; DST=/verif/seeded/$PID$SUB-$NAME
 cd $WT || exit 2
 git -C $WT checkout -q -- . 2>/dev/null; git -C $WT clean -fdq tests examples 2>/dev/null
 git -C $WT apply --check $OUT/patch.diff || { echo "patch does not apply"; exit 2; }
